@@ -1,11 +1,17 @@
 From Coq Require Import extraction.Extraction extraction.ExtrOcamlBasic.
-From TU Require Import Base C19_Model C19_Lit NFKC_Tie MsgPack_Model C19_File.
-Definition run := run_C19.
-Definition check := check_C19.
-(* relational check of the table (agree_C19) and the literal replay of the observed statistics (trace_ok);
-   nf_agree: the model's own BufRead::lines + clean + normalize of every raw corpus line equals the proc
-   oracle, and its normalize_model equals the crate's normalize on every side-channel string (4 forms x 2 modes; results in field 6 of the implementation output);
+From TU Require Import Base C19_Model C19_Lit NFKC_Tie MsgPack_Model C19_File C19_Lines.
+(* the training model works on the input as [norm_input] presents it: per file the first max_lines_per_file
+   entries of the oracle field proc without the markers of lines that are not UTF-8 (C19_Lines.v) *)
+Definition run := run_C19n.
+Definition check := check_C19n.
+(* relational check of the table (agree_C19) and the literal replay of the observed statistics (trace_ok), on the
+   normalised input;
+   lines_agree_b: the model's own reading of the raw file BYTES (split at 0x0A, strip 0x0D, last piece without newline,
+   strict UTF-8 decoding per line: a line that is not UTF-8 must carry the marker, every other line must equal the
+   model's own clean + normalize of its text) equals the oracle field proc; side_agree: normalize_model equals the
+   crate's normalize on every side-channel string (4 forms x 2 modes; field 6 of the implementation output);
    file_agree_C19: the bytes train_bpe wrote (field 7) are mp_encode of the table in the file's entry order and
    decode, by the model's own MessagePack reader, to the table the real loader returned (field 0) *)
-Definition agree (inp m i : val) : bool := agree_lit inp m i && nf_agree inp i && file_agree_C19 i.
+Definition agree (inp m i : val) : bool :=
+  agree_lit (norm_input inp) m i && lines_agree_b inp && side_agree inp i && file_agree_C19 i.
 Extraction "model.ml" run check agree.
